@@ -187,11 +187,34 @@ impl KnownFindings {
         self.entries.iter().find(|k| {
             k.status == "open"
                 && k.property == property
-                && (k.signature == sig
-                    || (k.signature.ends_with('*')
-                        && sig.starts_with(&k.signature[..k.signature.len() - 1])))
+                && glob_match(&k.signature, sig)
         })
     }
+}
+
+/// `*` in a listed signature stands for any (possibly empty) run of characters.
+pub fn glob_match(pattern: &str, text: &str) -> bool {
+    if !pattern.contains('*') {
+        return pattern == text;
+    }
+    let parts: Vec<&str> = pattern.split('*').collect();
+    let mut rest = text;
+    for (i, part) in parts.iter().enumerate() {
+        if i == 0 {
+            if !rest.starts_with(part) {
+                return false;
+            }
+            rest = &rest[part.len()..];
+        } else if i == parts.len() - 1 {
+            return rest.ends_with(part);
+        } else {
+            match rest.find(part) {
+                Some(p) => rest = &rest[p + part.len()..],
+                None => return false,
+            }
+        }
+    }
+    true
 }
 
 // ---------------------------------------------------------------------------------------------
@@ -1008,14 +1031,10 @@ pub fn check_main(prop: Arc<dyn Prop>, tier: Tier) -> i32 {
     out.wall_s = out.started.elapsed().as_secs_f64();
     write_evidence(prop.as_ref(), tier, &out);
     let known = KnownFindings::load();
-    for (sig, n) in out.rec.known_hits.iter() {
-        let what = known
-            .entries
-            .iter()
-            .find(|k| k.signature == *sig && k.property == prop.id())
-            .map(|k| k.what.clone())
-            .unwrap_or_default();
-        println!("KNOWN-FINDING: property={} {} [{}] (hit {} times)", prop.id(), what, sig, n);
+    // one line per listed open finding of this property, with the number of cases of this run that hit it
+    for k in known.entries.iter().filter(|k| k.status == "open" && k.property == prop.id()) {
+        let n = out.rec.known_hits.get(&k.signature).copied().unwrap_or(0);
+        println!("KNOWN-FINDING: property={} {} [{}] (hit {} times in this run)", prop.id(), k.what, k.signature, n);
     }
     for (sig, (n, ex)) in out.rec.collected.iter() {
         println!("COLLECTED x{} {}", n, sig);
